@@ -23,6 +23,7 @@ import numpy as np
 
 from ..common import rng_for
 
+OPTIMIZED_TAIL = 1  # shards run once more in an interpreter started with -O (vf/run.py)
 LEVEL = "fault_enumeration"
 TECHNIQUE = "crash-point enumeration on the real CLI: sys.monitoring statement-boundary failpoints (SIGKILL, SIGINT) + strace write(2) fault injection, offline invariant checker over directory / manifest / event log, sentinel-and-garbage resume"
 RULE = (
